@@ -20,7 +20,7 @@ CONSTANTS Depth, Seps, Rich
 Alphabet == IF Rich THEN {"{", "}", "(", ")", "[", "]", "=", "*", ",", "send", "max", "remaining", "kept", "to", "from", "@x", "$v", "USD", "5", "-3", "1/2", "50%",
                           "\"s\"", "-", "+", "vars", "source", "destination", "allowing", "overdraft", "save", "set_tx_meta", "account"}
             ELSE {"{", "}", "(", "]", "=", "send", "remaining", "@x", "$v", "USD", "5", "1/2", "-", "vars", "overdraft", "account"}
-Garbage == IF Rich THEN {"é", "%", "#", "\"open", "@", "$", "1/", "/*", "9.5"} ELSE {"é", "#", "\"open", "$"}
+Garbage == IF Rich THEN {"^", "%", "#", "\"open", "@", "$", "1/", "/*", "9.5"} ELSE {"^", "#", "\"open", "$"}
 
 ERemove(t, i) == SubSeq(t, 1, i - 1) \o SubSeq(t, i + 1, Len(t))
 EInsert(t, i, x) == SubSeq(t, 1, i - 1) \o <<x>> \o SubSeq(t, i, Len(t))    \* x becomes element i
@@ -43,7 +43,8 @@ Init == /\ ti \in 1..Len(Trees)
         /\ LET base == PProg(Trees[ti]).toks IN
            \/ (toks \in ({base} \cup EPrefixes(base) \cup Whole1(base)) /\ lexok = TRUE)
            \/ (toks \in Dirty1(base) /\ lexok = FALSE)
-           \/ (Depth >= 2 /\ toks \in UNION {Whole1(x) : x \in Whole1(base)} /\ lexok = TRUE)
+           \* (two successive edits: only on short scripts, the number of results grows with the square of the length)
+           \/ (Depth >= 2 /\ Len(base) <= 16 /\ toks \in UNION {Whole1(x) : x \in Whole1(base)} /\ lexok = TRUE)
         /\ sep \in Seps
         /\ i = 1 /\ pos = [ln |-> 0, ch |-> 0] /\ lens = <<>> /\ text = ""
 
